@@ -31,6 +31,22 @@ pub struct HttpSetup {
     pub front: SocketAddr,
     pub clusters: Vec<ClusterSetup>,
     pub listener: HttpListenerConfig,
+    /// when present the listener is an HTTPS one (the plain `listener` is ignored)
+    pub tls: Option<TlsSetup>,
+}
+
+pub struct TlsSetup {
+    pub listener: sozu_command_lib::proto::command::HttpsListenerConfig,
+    pub certificates: Vec<sozu_command_lib::proto::command::CertificateAndKey>,
+}
+
+/// an HTTPS variant of `simple_http`: one certificate (cert1 of the configuration alphabet)
+pub fn simple_https(front: SocketAddr, back: SocketAddr) -> HttpSetup {
+    let mut s = simple_http(front, back);
+    let fa: SocketAddress = front.into();
+    let listener = ListenerBuilder::new_https(fa).to_tls(None).unwrap();
+    s.tls = Some(TlsSetup { listener, certificates: vec![crate::cfgspace::cert(crate::cfgspace::CERT1, crate::cfgspace::KEY1, &[])] });
+    s
 }
 
 pub struct ClusterSetup {
@@ -50,13 +66,25 @@ pub fn http_listener(front: SocketAddr) -> HttpListenerConfig {
 pub fn http_state(setup: &HttpSetup) -> ConfigState {
     let mut s = ConfigState::new();
     let fa: SocketAddress = setup.front.into();
-    let mut reqs = vec![
-        RequestType::AddHttpListener(setup.listener.clone()),
-        RequestType::ActivateListener(ActivateListener { address: fa, proxy: ListenerType::Http as i32, from_scm: false }),
-    ];
+    let mut reqs = match &setup.tls {
+        None => vec![
+            RequestType::AddHttpListener(setup.listener.clone()),
+            RequestType::ActivateListener(ActivateListener { address: fa, proxy: ListenerType::Http as i32, from_scm: false }),
+        ],
+        Some(t) => {
+            let mut v = vec![
+                RequestType::AddHttpsListener(t.listener.clone()),
+                RequestType::ActivateListener(ActivateListener { address: fa, proxy: ListenerType::Https as i32, from_scm: false }),
+            ];
+            for c in &t.certificates {
+                v.push(RequestType::AddCertificate(sozu_command_lib::proto::command::AddCertificate { address: fa, certificate: c.clone(), expired_at: None }));
+            }
+            v
+        }
+    };
     for c in &setup.clusters {
         reqs.push(RequestType::AddCluster(c.cluster.clone()));
-        reqs.push(RequestType::AddHttpFrontend(RequestHttpFrontend {
+        let front = RequestHttpFrontend {
             cluster_id: Some(c.cluster.cluster_id.clone()),
             address: fa,
             hostname: c.hostname.clone(),
@@ -64,7 +92,8 @@ pub fn http_state(setup: &HttpSetup) -> ConfigState {
             position: RulePosition::Tree as i32,
             headers: c.headers.clone(),
             ..Default::default()
-        }));
+        };
+        reqs.push(if setup.tls.is_some() { RequestType::AddHttpsFrontend(front) } else { RequestType::AddHttpFrontend(front) });
         for (id, a) in &c.backends {
             reqs.push(RequestType::AddBackend(AddBackend {
                 cluster_id: c.cluster.cluster_id.clone(),
@@ -89,6 +118,7 @@ pub fn simple_http(front: SocketAddr, back: SocketAddr) -> HttpSetup {
         front,
         listener: http_listener(front),
         clusters: vec![ClusterSetup { cluster: crate::cfgspace::cluster("c1"), hostname: "a.io".into(), path: PathRule::prefix("/"), backends: vec![("b1".into(), back)], headers: vec![] }],
+        tls: None,
     }
 }
 
